@@ -227,6 +227,14 @@ class Circuit:
                 # normal simtask exit is not possible
                 msg = f"The simulation task failed with error: {self._simtask.exception()}"
             raise EdzedInvalidState(msg)
+        if self._error is not None:
+            # the very first evaluation has failed (or a stop was requested at the same moment)
+            # and the simulation task is still busy with the cleanup
+            if isinstance(self._error, asyncio.CancelledError):
+                msg = "The simulation task is finished"
+            else:
+                msg = f"The simulation task failed with error: {self._error}"
+            raise EdzedInvalidState(msg)
 
     def check_not_finalized(self) -> None:
         """Raise an error if the circuit has been finalized."""
